@@ -358,6 +358,12 @@ func (np *netPlan) open(ip uint32, port int) bool {
 func (np *netPlan) ttl(ip uint32) uint8 { return uint8(1 + mix64(np.salt^0x77, uint64(ip))%254) }
 
 func hostMAC(ip uint32) [6]byte {
+	if ip%7 == 5 {
+		// a registered prefix whose vendor name is long and contains characters that JSON escapes
+		// ("Beijing National Railway Research & Design Institute of Signal & Communication Group
+		// Co..Ltd."): the line `sx arp --json` prints for such a host is far longer than usual
+		return [6]byte{0xc0, 0x53, 0x36, byte(ip >> 16), byte(ip >> 8), byte(ip)}
+	}
 	return [6]byte{0x02, 0x11, byte(ip >> 24), byte(ip >> 16), byte(ip >> 8), byte(ip)}
 }
 
